@@ -16,6 +16,8 @@ import (
 	"fmt"
 	"math"
 	"math/rand"
+	"os"
+	"path/filepath"
 	"strconv"
 	"strings"
 
@@ -982,6 +984,62 @@ func runCase(c *fw.Ctx, i int) {
 		}
 		report("ToCSV", checkCSVExport(func(rag.ExportConfig) (string, error) { return cc.ToCSV() }, chunks, rag.CSVExportConfig(), c))
 		report("ToTSV", checkCSVExport(func(rag.ExportConfig) (string, error) { return cc.ToTSV() }, chunks, rag.TSVExportConfig(), c))
+	})
+	c.Guard("ExportToFile", id, detail, func() {
+		// file destinations, the same path written several times (a full export, then
+		// a subset, then the full one again): what the file holds after a successful
+		// call is that call's export and nothing else
+		dir := filepath.Join(c.Work, fmt.Sprintf("c14files-%d", i))
+		if os.MkdirAll(dir, 0o755) != nil {
+			return
+		}
+		defer os.RemoveAll(dir)
+		path := filepath.Join(dir, "export.out")
+		rf := c.Rand("coll", i, "files")
+		sub := chunks[:rf.Intn(len(chunks)+1)]
+		viaColl := rf.Intn(2) == 0
+		for k, part := range [][]*rag.Chunk{chunks, sub, chunks, nil} {
+			part := part
+			ex := func(kc rag.ExportConfig) (string, error) {
+				var err error
+				if viaColl {
+					err = rag.NewChunkCollection(part).ExportToFile(path, kc)
+				} else {
+					err = rag.NewExporterWithConfig(kc).ExportToFile(part, path)
+				}
+				if err != nil {
+					return "", err
+				}
+				c.Count("file_exports_read_back", 1)
+				data, rerr := os.ReadFile(path)
+				return string(data), rerr
+			}
+			if f := checkExport(ex, part, cfg, c); f != nil {
+				f.what = fmt.Sprintf("write %d to the same path (%d chunks): %s", k, len(part), f.what)
+				report("ExportToFile", f)
+				return
+			}
+		}
+		// numbered batch files
+		size := 1 + rf.Intn(len(chunks)+2)
+		pat := filepath.Join(dir, "batch-%03d.out")
+		if err := rag.NewBatchExporterWithConfig(size, cfg).ExportToFiles(chunks, pat); err != nil {
+			report("ExportToFiles", failf("export-error", "%v", err))
+			return
+		}
+		var mem []rag.ExportBatch
+		rag.NewBatchExporterWithConfig(size, cfg).Export(chunks, func(b rag.ExportBatch) error { mem = append(mem, b); return nil })
+		for _, b := range mem {
+			data, rerr := os.ReadFile(fmt.Sprintf(pat, b.BatchNumber))
+			if rerr != nil || string(data) != b.Data {
+				report("ExportToFiles", failf("batch-file", "file of batch %d (size %d) differs from the batch handed to the callback (read error: %v)", b.BatchNumber, size, rerr))
+				return
+			}
+			c.Count("batch_files_read_back", 1)
+		}
+		if _, err := os.Stat(fmt.Sprintf(pat, len(mem))); err == nil {
+			report("ExportToFiles", failf("batch-file", "a file beyond the last batch (%d) exists", len(mem)))
+		}
 	})
 	c.Guard("BatchExporter", id, detail, func() {
 		report("BatchExporter", checkBatches(c.Rand("coll", i, "batch"), chunks, cfg, c))
